@@ -94,6 +94,7 @@ def gen_case(rng):
     qs.add(ts[-1] + 1.0)
     qs.add(ts[-1] + 37.5)
     adds = []
+    known = []
     for _ in range(rng.randrange(0, 5)):
         m = rng.randrange(1, 5)
         if rng.random() < 0.5:
@@ -101,7 +102,21 @@ def gen_case(rng):
             adds.append({"kind": "depth", "depth": ds})
         else:
             fs = sorted(rng.randrange(0, 200) / 4.0 for _ in range(m))
-            adds.append({"kind": "interval", "from_to": [[f, f + rng.choice([0.25, 1.0, 5.0])] for f in fs]})
+            rows_ = [[f, f + rng.choice([0.25, 1.0, 5.0])] for f in fs]
+            for j in range(len(rows_)):
+                # later tables relate to the intervals that exist already: same top, same bottom, repeated, adjoining,
+                # enclosing (nested / overlapping tables such as assays inside lithology)
+                if known and rng.random() < 0.5:
+                    a, b = rng.choice(known)
+                    h = (b - a) / 2 if b - a > 0.25 else 0.125
+                    rows_[j] = rng.choice([[a, a + h], [b - h, b], [a, b], [b, b + h], [a - h, b + h] if a - h >= 0 else [a, b + h]])
+            seen_, uniq = set(), []
+            for r_ in rows_:
+                if tuple(r_) not in seen_:
+                    seen_.add(tuple(r_))
+                    uniq.append(r_)
+            adds.append({"kind": "interval", "from_to": uniq})
+            known += uniq
     return {"collar": collar, "surveys": rows, "queries": sorted(qs), "adds": adds}
 
 
@@ -156,15 +171,17 @@ def run_case(ctx, ws, case, idx):
         name = f"d{k}"
         try:
             if add["kind"] == "depth":
+                # the expectation is fixed before the call, from the case's own numbers: the library is handed copies
+                # (it may adjust the arrays it is given to the depths it matched)
                 ds = np.array(add["depth"], dtype=float)
                 vals = ds * 10.0 + k
-                dh.add_data({name: {"depth": ds, "values": vals}})
                 truth[name] = ("depth", dict(zip(ds.tolist(), vals.tolist())))
+                dh.add_data({name: {"depth": ds.copy(), "values": vals.copy()}})
             else:
                 ft = np.array(add["from_to"], dtype=float)
                 vals = ft[:, 0] * 10.0 + k + 0.5
-                dh.add_data({name: {"from-to": ft, "values": vals}})
                 truth[name] = ("interval", {tuple(r): v for r, v in zip(ft.tolist(), vals.tolist())})
+                dh.add_data({name: {"from-to": ft.copy(), "values": vals.copy()}})
         except Exception as e:  # noqa: BLE001
             failures.append((f"add_data {add} raised {type(e).__name__}: {str(e)[:80]}", f"C18:add-raises-{type(e).__name__}"))
             break
